@@ -20,7 +20,7 @@ Inductive out_obs := OutBody | OutStream (name : bytes) | OutBytes (b : bytes).
 Inductive c15_case :=
 | C15Case
     (* configuration and response headers *)
-    (disable : bool) (sel : selector) (resp_ae ct : bytes)
+    (disable : bool) (sel : selector) (resp_ae resp_ce ct : bytes)   (* response headers Accept-Encoding, Content-Encoding, Content-Type *)
     (* oracle table *)
     (t_parse : ct_parse)                              (* mime.ParseMediaType(ct): charset parameter *)
     (t_lookup : bytes * option bytes)                 (* lowered label -> canonical name (Lookup, then ianaindex) *)
@@ -28,9 +28,10 @@ Inductive c15_case :=
     (t_boms : list (bytes * option bytes))            (* htmlcharset.Lookup on the labels of the marks prefixing it -> name *)
     (t_prescan : option bytes)                        (* charsets.prescan(first read) -> name (None = nil encoding) *)
     (t_stream : list (bytes * bytes))                 (* name -> transform.Reader over the body's chunks, drained *)
+    (t_partial : list (bytes * bytes))                (* name -> the same when the source fails after the chunks (no flush) *)
     (takes : list (N * bool))                         (* hand-out schedule of the reference transform.Reader *)
-    (* the body as the network delivers it, the caller's buffer sizes (cycled), number of calls made *)
-    (chunks : list bytes) (eof_last : bool) (pattern : list N) (ncalls : N)
+    (* the body as the network delivers it (fail: a read error follows the chunks), the caller's buffer sizes (cycled), number of calls made *)
+    (chunks : list bytes) (eof_last fail : bool) (pattern : list N) (ncalls : N)
     (* observed on the real code *)
     (o_kind : rkind)                                  (* which reader autoDecodeResponseBody installed *)
     (o_calls : list call_obs)                         (* per Read: n, error, (detected, decodeReader != nil, len(peek)) *)
@@ -112,27 +113,28 @@ Definition kind_of (i : install bytes) : rkind :=
 
 Definition c15_check (c : c15_case) : bool :=
   match c with
-  | C15Case disable sel resp_ae ct t_parse t_lookup t_first t_boms t_prescan t_stream takes
-            chunks eof_last pattern ncalls o_kind o_calls o_out =>
+  | C15Case disable sel resp_ae resp_ce ct t_parse t_lookup t_first t_boms t_prescan t_stream t_partial takes
+            chunks eof_last fail pattern ncalls o_kind o_calls o_out =>
       let body := concat chunks in
       let ds := tbl_stream body t_stream in
+      let dp := tbl_stream body t_partial in
       let fe := find_encoding_m (tbl_lookup_name t_boms) (tbl_prescan body t_first t_prescan) in
       let tk := map (fun x => (N.to_nat (fst x), snd x)) takes in
       let pat := map N.to_nat pattern in
-      let i := decide (tbl_parse ct t_parse) (tbl_lookup t_lookup) disable sel resp_ae ct in
-      let b := open_body ds i chunks eof_last tk in
+      let i := decide (tbl_parse ct t_parse) (tbl_lookup t_lookup) disable sel resp_ce ct in
+      let b := open_body ds dp i chunks eof_last fail tk in
       let sizes := cycle_sizes (N.to_nat ncalls + 2) pat pat in
-      let tr := run ds fe sizes b in
+      let tr := run ds dp fe sizes b in
       let out := concat (map (fun x => fst (fst x)) tr) in
       let want := match o_out with
                   | OutBody => body
-                  | OutStream n => ds n chunks
+                  | OutStream n => if fail then dp n chunks else ds n chunks
                   | OutBytes w => w
                   end in
       rkind_eqb (kind_of i) o_kind &&
       list_eqb call_eqb tr o_calls &&
       bytes_eqb out want &&
       (* the delivered body as [read_all] (the function the theorems are about) computes it *)
-      let '(out2, fin) := read_all ds fe sizes b in
-      bytes_eqb out2 want && fin
+      let '(out2, fin) := read_all ds dp fe sizes b in
+      bytes_eqb out2 want && rerr_eqb fin (if fail then EFail else EEOF)
   end.
